@@ -751,11 +751,10 @@ impl Mon {
     }
 
     fn recv(&mut self, m: Msg, tag: usize) {
-        if self.closed || self.pend.is_some() {
-            // reading on after a close / a violation is not itself judged; the first violation stays pending
-            if self.closed {
-                return;
-            }
+        // reading on after a close is not itself judged; while a violation is pending the first one
+        // stays the pending one (`set` below), later messages still update the operation table
+        if self.closed {
+            return;
         }
         let set = |s: &mut Mon, event: &'static str, expect: Expect, replace| {
             if s.pend.is_none() {
@@ -1031,14 +1030,19 @@ fn report(cx: &Cx, p: Protocols, family: &str, hist: &[String], log: &[L], v: &V
     cx.violation(viol);
 }
 
-fn explore(cx: &Cx, p: Protocols, depth: usize, max_unread: usize) -> agv_engine::bfs::BfsStats {
+fn explore(cx: &Cx, p: Protocols, depth: usize, max_unread: usize, found: &Mutex<Vec<(Protocols, Vec<Ev>, Viol)>>) -> agv_engine::bfs::BfsStats {
     let alpha = alphabet();
     let step = |hist: &[Ev]| -> Option<Step> {
         let j = replay_history(p, hist, max_unread)?;
         cx.eval();
         let names: Vec<String> = hist.iter().map(|e| ev_name(*e)).collect();
-        for v in &j.new_viol {
-            report(cx, p, "bfs", &names, &j.log, v);
+        if !j.new_viol.is_empty() {
+            // reported after the search, sorted (shortest history first), so that the run's output is
+            // the same on every run although the level is explored in parallel
+            let mut f = found.lock().unwrap();
+            for v in &j.new_viol {
+                f.push((p, hist.to_vec(), v.clone()));
+            }
         }
         // non-trivial: the history made the server deliver a result of an executed operation, or close /
         // report an error; identity = canonical state
@@ -1075,7 +1079,6 @@ fn two_ready(cx: &Cx, p: Protocols, reps: usize) -> u64 {
                         } else {
                             hist.extend([a2, a1]);
                         }
-                        let n = hist.len();
                         let mut ok = true;
                         let mut last_start = 0;
                         for (pos, ev) in hist.iter().enumerate() {
@@ -1097,7 +1100,6 @@ fn two_ready(cx: &Cx, p: Protocols, reps: usize) -> u64 {
                         let mon = run_monitor(p, &log);
                         let mut names: Vec<String> = hist.iter().map(|e| ev_name(*e)).collect();
                         names.insert(4, "|both-ready-in-one-poll:".into());
-                        let _ = n;
                         for v in &mon.viol {
                             report(cx, p, "two-ready", &names, &log, v);
                         }
@@ -1170,10 +1172,11 @@ pub fn run(cx: &Cx) {
     cx.assume("state merging: two histories are merged when harness-visible socket inputs (handshake progress, unread input, every held stream with its remaining script, timer) and the full monitor state agree");
     cx.assume(&format!("unread client input is capped at {max_unread} messages (burst length / messages waiting behind a pending initialiser)"));
 
+    let found: Mutex<Vec<(Protocols, Vec<Ev>, Viol)>> = Mutex::new(Vec::new());
     let mut all_exhausted = true;
     let mut per = serde_json::Map::new();
     for p in [Protocols::GraphQLWS, Protocols::SubscriptionsTransportWS] {
-        let st = explore(cx, p, depth, max_unread);
+        let st = explore(cx, p, depth, max_unread, &found);
         cx.add_states(st.states);
         cx.add_transitions(st.transitions);
         cx.add_traces(st.transitions + 1);
@@ -1192,6 +1195,16 @@ pub fn run(cx: &Cx) {
                 "per_depth_new_states_transitions": st.per_level.iter().map(|(s, t)| json!([s, t])).collect::<Vec<_>>(),
             }),
         );
+    }
+    {
+        let mut f = found.into_inner().unwrap();
+        f.sort_by_cached_key(|(p, h, v)| (h.len(), proto_name(*p), h.iter().map(|e| ev_name(*e)).collect::<Vec<_>>(), v.at, v.class));
+        for (p, h, v) in &f {
+            // the log is regenerated by replaying the history once more (cheap) instead of being kept
+            let names: Vec<String> = h.iter().map(|e| ev_name(*e)).collect();
+            let log = replay_history(*p, h, max_unread).map(|j| j.log).unwrap_or_default();
+            report(cx, *p, "bfs", &names, &log, v);
+        }
     }
     let mut two = 0;
     for p in [Protocols::GraphQLWS, Protocols::SubscriptionsTransportWS] {
